@@ -276,11 +276,11 @@ CLAIMED["C06"] = {
 
 CLAIMED["C03"] = {
     "category": "exploration",
-    "text": "BOUNDED (labelled; the end-to-end statement is not counted as proved): the property quantifies over source texts through the pest-generated parser and an external MILP search; every in-repo step that can carry a contract is covered under C01 / C02 / C04 / C05, "
+    "text": "BOUNDED only (labelled; nothing here is counted as proved): the property quantifies over source texts through the pest-generated parser and an external MILP search; every in-repo step that can carry a contract is covered under C01 / C02 / C04 / C05, "
             "and no further function exists to attach an obligation to. The statement is executed instead: 220 generated models (two integers in [0,3] and [-2,2], two Booleans; 1 to 4 constraints over + - * abs min max neg and not / and / or / implies / iff / xor, nesting <= 2; "
             "min or max objective) are rendered as text, solved through RoocSolver::solve_using(auto_solver), and compared with a brute-force search over all 80 assignments using an independent evaluator: a solution exactly when a satisfying assignment exists, "
             "feasible, with the right objective value, and optimal; otherwise the infeasible verdict. A second family of 160 models over two continuous variables checks the returned point the same way and uses a 13 x 9 grid of robustly feasible candidates as a one-sided test of optimality and of the infeasible verdict. One genuine defect was found this way and repaired (fix: 0f3a8ac): the lowering relied on inferred ranges (a Boolean narrowed to one value, an integer interval without an integral point) "
-            "that the linear model does not enforce, so an infeasible model could come back with a solution. The repaired statements themselves are under contract (U07.reset, listed under C07 as well: the reset keeps the box sound for every assignment inside the published domains); that is the one discharged obligation counted here, everything else about C03 stays bounded.",
+            "that the linear model does not enforce, so an infeasible model could come back with a solution. The repaired statements themselves are under contract, but under C07 (U07.reset: afterwards the variable's range admits every value of its published type); nothing about C03 is counted as proved, and six pinned models (the inputs of that defect and their neighbours) run on every seed.",
     "note": "Bound: the generator in units/U03.e2e/witness.rs, seeded by VERIF_SEED; vacuity guard: at least 60 solved and 5 infeasible models. Trusted: the independent evaluator's reading of the language semantics (the one of spec/semantics.rs).",
     "technique": "bounded executable check of the one-shot entry point against brute force over all assignments (stand-in where no contract can reach; labelled bounded)",
     "design_ref": "DESIGN.md §9 C03, §11.9",
